@@ -38,6 +38,10 @@ type c15Case struct {
 	// RAND under another OP, same OP and RAND under another K, same K and OP with another RAND), then for this
 	// case again — the results must be those of the arguments of each call
 	Variant      string `json:"variant,omitempty"` // "" | other-op | other-k | other-rand
+	// AutsBuf: what the caller's AUTS memory holds. Milenage_check writes the token into it (its previous contents —
+	// a token of an earlier resynchronisation, a pool pattern — are not part of the token) and Milenage_auts reads the
+	// token from its first 14 octets (a 128-bit scratch buffer, the rest of a message). Empty = a fresh 14-octet buffer.
+	AutsBuf []byte `json:"auts_buf,omitempty"`
 	VariantBytes []byte `json:"variant_bytes,omitempty"`
 }
 
@@ -81,6 +85,9 @@ func genC15(t *rapid.T) c15Case {
 	if rapid.IntRange(0, 2).Draw(t, "history") == 0 {
 		c.Variant = rapid.SampledFrom([]string{"other-op", "other-op", "other-k", "other-rand"}).Draw(t, "variant")
 		c.VariantBytes = gen128(t, "variant_bytes")
+	}
+	if rapid.IntRange(0, 2).Draw(t, "auts_buf_kind") != 1 {
+		c.AutsBuf = genBytes(t, rapid.SampledFrom([]int{14, 14, 16, 15, 32}).Draw(t, "auts_buf_len"), "auts_buf")
 	}
 	c.Pair = rapid.SampledFrom(c15Pairs).Draw(t, "pair")
 	ue := genSQN(t, "sqn_ue")
@@ -133,8 +140,11 @@ type chkOut struct {
 	auts        []byte
 }
 
-func libCheck(opc, k, sqnUE, rnd, autn []byte) chkOut {
+func libCheck(opc, k, sqnUE, rnd, autn, autsBuf []byte) chkOut {
 	o := chkOut{res: make([]byte, 8), ck: make([]byte, 16), ik: make([]byte, 16), auts: make([]byte, 14)}
+	if len(autsBuf) >= 14 {
+		o.auts = append([]byte{}, autsBuf...)
+	}
 	es := []*embedded{emb(opc), emb(k), emb(sqnUE), emb(rnd), emb(autn)}
 	o.rc = milenage.Milenage_check(es[0].s(), es[1].s(), es[2].s(), es[3].s(), es[4].s(), o.ik, o.ck, o.res, &o.resLen, o.auts)
 	for _, e := range es {
@@ -341,7 +351,7 @@ func c15One(r *ev.Rec) func(c15Case) ev.Verdict {
 		wantAuts := refsec.AUTS(k, opc, rnd, sqnUE)
 		check := func(what string, autn [16]byte) *ev.Verdict {
 			usim := refsec.USIM(k, opc, rnd, autn, sqnUE)
-			got := libCheck(opc[:], c.K, c.SQNUE, c.RAND, autn[:])
+			got := libCheck(opc[:], c.K, c.SQNUE, c.RAND, autn[:], c.AutsBuf)
 			var allowed []int
 			switch {
 			case usim.MacOK && usim.Fresh:
@@ -381,8 +391,12 @@ func c15One(r *ev.Rec) func(c15Case) ev.Verdict {
 					return &vv
 				}
 			case -2:
-				if !bytes.Equal(got.auts, wantAuts[:]) {
-					vv := fail("check:auts", "Milenage_check(%s): AUTS %x, want (SQN_UE^AK*)||f1*(SQN_UE,AMF=0) = %x", what, got.auts, wantAuts)
+				if !bytes.Equal(got.auts[:14], wantAuts[:]) {
+					vv := fail("check:auts", "Milenage_check(%s): AUTS %x, want (SQN_UE^AK*)||f1*(SQN_UE,AMF=0) = %x (the AUTS memory held %x before the call)", what, got.auts[:14], wantAuts, c.AutsBuf)
+					return &vv
+				}
+				if len(got.auts) > 14 && !bytes.Equal(got.auts[14:], c.AutsBuf[14:]) {
+					vv := fail("check:auts-behind", "Milenage_check(%s) wrote behind the 112 bits of AUTS: %x, before the call %x", what, got.auts, c.AutsBuf)
 					return &vv
 				}
 				back := make([]byte, 6)
@@ -447,7 +461,11 @@ func c15One(r *ev.Rec) func(c15Case) ev.Verdict {
 		hss := func(what string, auts [14]byte) *ev.Verdict {
 			wantSQN, ok := refsec.HSSCheckAUTS(k, opc, rnd, auts)
 			got := make([]byte, 6)
-			rc := milenage.Milenage_auts(opc[:], c.K, c.RAND, append([]byte{}, auts[:]...), got)
+			in := append([]byte{}, auts[:]...)
+			if len(c.AutsBuf) > 14 {
+				in = append(in, c.AutsBuf[14:]...) // the token at the start of a longer buffer
+			}
+			rc := milenage.Milenage_auts(opc[:], c.K, c.RAND, in, got)
 			if ok && (rc != 0 || !bytes.Equal(got, wantSQN[:])) {
 				vv := fail("auts:valid-rejected", "Milenage_auts(%s) = %d with SQN %x, want 0 and SQN_UE %x", what, rc, got, wantSQN)
 				return &vv
